@@ -67,14 +67,30 @@ precedence and associativity" means. -/
 theorem parse_render_partial (e : PExpr) (h : WF e) (rest : List Tok) (hr : Stops rest)
     (fuel : Nat) (hf : fuel ≥ 16 * (renderToks e).length + 16) :
     parseOr fuel (renderToks e ++ rest) = some (e, rest) := by
-  sorry
+  have hwf : ∀ e, WF e → WFx e := by
+    intro e
+    induction e with
+    | term t => exact id
+    | paren e ih => exact ih
+    | neg e ih => exact fun h => ⟨ih h.1, h.2⟩
+    | bin op l r ihl ihr => exact fun h => ⟨ihl h.1, ihr h.2.1, h.2.2.1, h.2.2.2⟩
+    | method op recv arg ihr iha => exact fun h => ⟨h.1, ihr h.2.1, iha h.2.2.1, h.2.2.2⟩
+    | length recv ih => exact fun h => ⟨ih h.1, h.2⟩
+  have hfo : Follow 0 rest := by
+    unfold Stops at hr
+    split at hr
+    · simp [Follow, orStop, andStop, cmpStop, addStop, mulStop, dotStop]
+    all_goals first
+      | exact absurd hr id
+      | simp [Follow, orStop, andStop, cmpStop, addStop, mulStop, dotStop, cmpOfTok, addOfTok, mulOfTok]
+  exact parseOr_render e (hwf e h) rest hfo fuel (by omega)
 
 /-- Emission: operands left to right, operator after its operands, `Parens` after a
 parenthesised subtree (the postfix of the rendered-and-parsed tree is the postfix of the tree). -/
 theorem postfix_of_parse (e : PExpr) (h : WF e) (rest : List Tok) (hr : Stops rest)
     (fuel : Nat) (hf : fuel ≥ 16 * (renderToks e).length + 16) :
     (parseOr fuel (renderToks e ++ rest)).map (fun r => toPostfix r.1) = some (toPostfix e) := by
-  sorry
+  rw [parse_render_partial e h rest hr fuel hf]; rfl
 
 /-! ### The precedence table, instance by instance (for all atoms `a b c`) -/
 
@@ -83,71 +99,161 @@ def atomTok (t : PTerm) : List Tok := renderTermToks t
 theorem mul_over_add (a b c : PTerm) (ha : AtomTermWF a) (hb : AtomTermWF b) (hc : AtomTermWF c) :
     parseOr 100 (atomTok a ++ [.op "+"] ++ atomTok b ++ [.op "*"] ++ atomTok c) =
       some (.bin .add (.term a) (.bin .mul (.term b) (.term c)), []) := by
-  sorry
+  have hw : WF (.bin .add (.term a) (.bin .mul (.term b) (.term c))) := by
+    have ta : TermWF a := termOK_of_atomOK ha
+    have tb : TermWF b := termOK_of_atomOK hb
+    have tc : TermWF c := termOK_of_atomOK hc
+    simp [WF, level, ta, tb, tc]
+  have := parse_render_partial _ hw [] trivial 100 (by
+    have := length_renderTermToks_atom (t := a) ha
+    have := length_renderTermToks_atom (t := b) hb
+    have := length_renderTermToks_atom (t := c) hc
+    simp [renderToks, binTok] at *; omega)
+  simpa [renderToks, binTok, atomTok] using this
 
 theorem sub_left_assoc (a b c : PTerm) (ha : AtomTermWF a) (hb : AtomTermWF b) (hc : AtomTermWF c) :
     parseOr 100 (atomTok a ++ [.op "-"] ++ atomTok b ++ [.op "-"] ++ atomTok c) =
       some (.bin .sub (.bin .sub (.term a) (.term b)) (.term c), []) := by
-  sorry
+  have hw : WF (.bin .sub (.bin .sub (.term a) (.term b)) (.term c)) := by
+    have ta : TermWF a := termOK_of_atomOK ha
+    have tb : TermWF b := termOK_of_atomOK hb
+    have tc : TermWF c := termOK_of_atomOK hc
+    simp [WF, level, ta, tb, tc]
+  have := parse_render_partial _ hw [] trivial 100 (by
+    have := length_renderTermToks_atom (t := a) ha
+    have := length_renderTermToks_atom (t := b) hb
+    have := length_renderTermToks_atom (t := c) hc
+    simp [renderToks, binTok] at *; omega)
+  simpa [renderToks, binTok, atomTok] using this
 
 theorem and_over_or (a b c : PTerm) (ha : AtomTermWF a) (hb : AtomTermWF b) (hc : AtomTermWF c) :
     parseOr 100 (atomTok a ++ [.orOp] ++ atomTok b ++ [.andOp] ++ atomTok c) =
       some (.bin .or (.term a) (.bin .and (.term b) (.term c)), []) := by
-  sorry
+  have hw : WF (.bin .or (.term a) (.bin .and (.term b) (.term c))) := by
+    have ta : TermWF a := termOK_of_atomOK ha
+    have tb : TermWF b := termOK_of_atomOK hb
+    have tc : TermWF c := termOK_of_atomOK hc
+    simp [WF, level, ta, tb, tc]
+  have := parse_render_partial _ hw [] trivial 100 (by
+    have := length_renderTermToks_atom (t := a) ha
+    have := length_renderTermToks_atom (t := b) hb
+    have := length_renderTermToks_atom (t := c) hc
+    simp [renderToks, binTok] at *; omega)
+  simpa [renderToks, binTok, atomTok] using this
 
 theorem cmp_over_and (a b c : PTerm) (ha : AtomTermWF a) (hb : AtomTermWF b) (hc : AtomTermWF c) :
     parseOr 100 (atomTok a ++ [.andOp] ++ atomTok b ++ [.op "<"] ++ atomTok c) =
       some (.bin .and (.term a) (.bin .lt (.term b) (.term c)), []) := by
-  sorry
+  have hw : WF (.bin .and (.term a) (.bin .lt (.term b) (.term c))) := by
+    have ta : TermWF a := termOK_of_atomOK ha
+    have tb : TermWF b := termOK_of_atomOK hb
+    have tc : TermWF c := termOK_of_atomOK hc
+    simp [WF, level, ta, tb, tc]
+  have := parse_render_partial _ hw [] trivial 100 (by
+    have := length_renderTermToks_atom (t := a) ha
+    have := length_renderTermToks_atom (t := b) hb
+    have := length_renderTermToks_atom (t := c) hc
+    simp [renderToks, binTok] at *; omega)
+  simpa [renderToks, binTok, atomTok] using this
 
 theorem not_over_mul (a b : PTerm) (ha : AtomTermWF a) (hb : AtomTermWF b) :
     parseOr 100 ([.punct '!'] ++ atomTok a ++ [.op "*"] ++ atomTok b) =
       some (.bin .mul (.neg (.term a)) (.term b), []) := by
-  sorry
+  have hw : WF (.bin .mul (.neg (.term a)) (.term b)) := by
+    have ta : TermWF a := termOK_of_atomOK ha
+    have tb : TermWF b := termOK_of_atomOK hb
+    simp [WF, level, ta, tb]
+  have := parse_render_partial _ hw [] trivial 100 (by
+    have := length_renderTermToks_atom (t := a) ha
+    have := length_renderTermToks_atom (t := b) hb
+    simp [renderToks, binTok] at *; omega)
+  simpa [renderToks, binTok, atomTok] using this
 
 theorem method_binds_tightest (a b : PTerm) (ha : AtomTermWF a) (hb : AtomTermWF b) :
     parseOr 100 ([.punct '!'] ++ atomTok a ++ [.dot, .ident "starts_with", .punct '('] ++ atomTok b ++ [.punct ')']) =
       some (.neg (.method .pfx (.term a) (.term b)), []) := by
-  sorry
+  -- 7 tokens: the general fuel bound (16 * 7 + 16) exceeds 100, so by cases on the atoms
+  cases a <;> first | exact absurd ha id | skip
+  all_goals cases b <;> first | exact absurd hb id | rfl
 
 /-- **Chained comparisons are errors.** After one comparison the parser stops at a second
 comparison operator, and no continuation of a rule body, check or block accepts it. -/
 theorem comparison_nonassoc (a b c : PTerm) (ha : AtomTermWF a) (hb : AtomTermWF b) (hc : AtomTermWF c)
     (op1 op2 : Tok) (h1 : (cmpOfTok op1).isSome) (h2 : (cmpOfTok op2).isSome) (pol : Bool) :
     parseItems 1000 pol ([.keyword "check if"] ++ atomTok a ++ [op1] ++ atomTok b ++ [op2] ++ atomTok c ++ [.punct ';']) = none := by
-  sorry
+  have := chained_cmp_rejected a b c ha hb hc op1 op2 h1 h2 pol 993 (by omega)
+  simpa [atomTok] using this
 
 /-! ### The named errors are errors (conversion level, also inside expressions) -/
 
 theorem unbound_parameter_is_error (ps : Params) (n : String) (h : ps.find? (·.1 == n) = none) :
     denoteTerm ps (.param n) = none := by
-  sorry
+  simp [denoteTerm, denoteAtomTerm, h]
 
 /-- …and an error in any operand makes the whole expression an error (no nil term). -/
 theorem expr_error_propagates (ps : Params) (e : PExpr) (t : PTerm)
     (hmem : POp.value t ∈ toPostfix e) (h : denoteTerm ps t = none) : denoteExpr ps e = none := by
-  sorry
+  have key : ∀ l : List POp, POp.value t ∈ l → l.mapM (denoteOp ps) = none := by
+    intro l
+    induction l with
+    | nil => intro hm; cases hm
+    | cons x xs ih =>
+      intro hm
+      rw [List.mapM_cons]
+      rcases List.mem_cons.mp hm with rfl | hm'
+      · simp [denoteOp, h]
+      · rw [ih hm']; cases denoteOp ps x <;> rfl
+  exact key _ hmem
 
 theorem odd_hex_is_error (ps : Params) (ds : List Char) (h : ds.length % 2 = 1) :
     denoteTerm ps (.bytes ds) = none := by
-  sorry
+  simp [denoteTerm, denoteAtomTerm]; omega
 
 theorem variable_in_set_is_error (ps : Params) (n : String) (pre post : List PTerm) :
     denoteTerm ps (.set (pre ++ .var n :: post)) = none := by
-  sorry
+  have key : ∀ pre : List PTerm, ∀ ts, (pre ++ .var n :: post).mapM (denoteAtomTerm ps) = some ts →
+      ts.mapM atomOfTerm = none := by
+    intro pre
+    induction pre with
+    | nil =>
+      intro ts hts
+      simp only [List.nil_append, List.mapM_cons, denoteAtomTerm] at hts
+      cases hp : post.mapM (denoteAtomTerm ps) with
+      | none => simp [hp] at hts
+      | some ys =>
+        simp [hp] at hts
+        subst hts
+        simp [List.mapM_cons, atomOfTerm]
+    | cons x xs ih =>
+      intro ts hts
+      simp only [List.cons_append, List.mapM_cons] at hts
+      cases hx : denoteAtomTerm ps x with
+      | none => simp [hx] at hts
+      | some y =>
+        cases hr : (xs ++ .var n :: post).mapM (denoteAtomTerm ps) with
+        | none => simp [hx, hr] at hts
+        | some ys =>
+          simp [hx, hr] at hts
+          subst hts
+          rw [List.mapM_cons, ih ys hr]
+          cases atomOfTerm y <;> rfl
+  unfold denoteTerm
+  cases hm : (pre ++ .var n :: post).mapM (denoteAtomTerm ps) with
+  | none => simp [hm]
+  | some ts => simp [hm, key pre ts hm]
 
 theorem date_without_zone_is_error : unixOfDate "2020-01-01T00:00:00".toList = none := by
-  sorry
+  decide +kernel
 
 theorem date_month_13_is_error : unixOfDate "2020-13-45T99:00:00Z".toList = none := by
-  sorry
+  decide +kernel
 
 /-- `or` denotes alternative queries, in order. -/
 theorem or_is_alternatives (ps : Params) (q1 q2 : List PElem) (r1 r2 : DRule)
     (h1 : denoteQuery ps q1 = some r1) (h2 : denoteQuery ps q2 = some r2) :
     denoteItems ps [.check { queries := [q1, q2] }] =
       some { facts := [], rules := [], checks := [{ queries := [r1, r2] }], policies := [] } := by
-  sorry
+  simp [denoteItems, List.mapM_cons, h1, h2]
 
 /-! Non-vacuity: the example of the design, end to end from characters. -/
 
@@ -162,9 +268,9 @@ theorem sample_parses :
                .value (.var (strBytes "b")), .value (.const (.atom (.int 4))), .binary .sub, .unary .parens,
                .value (.const (.atom (.int 2))), .binary .div, .binary .le, .binary .and,
                .value (.var (strBytes "c")), .binary .or ]] }] }] } := by
-  sorry
+  decide +kernel
 
 theorem chained_text_rejected : parseBlockText "check if 1 < 2 < 3;".toList = none := by
-  sorry
+  decide +kernel
 
 end Biscuit.C14
